@@ -121,4 +121,17 @@ CHECKS["C02"] = {
           "basins=False; basins are C07), file writes recorded in a ghost log, np.savetxt prints what it is given. Not under contract: "
           "Export.fcs/avi, plugin/temporary non-scalar features, .tdms sources (represented by an index-only object in the generator unit).",
   "technique": "contract-based deductive verification: AST-generated VCs with generator ghost output, loop invariants and callee contracts, discharged by z3"}
+CHECKS["C07"] = {
+  "text": "Proof that BasinProxyFeature[idx] == origin[basinmap[idx]] for integer (also negative), slice, [:], index-array and "
+          "boolean-mask access, for scalar and image-like features and maps that repeat or permute events (loop invariant over the "
+          "output buffer); that RTDCWriter.store_basin names a mapping feature whose content equals the given map, reuses an existing "
+          "one only if equal and never overwrites one; that Export.hdf5(basins=True) records for the source (the root file for a "
+          "hierarchy child) a local 'file' basin with absolute path + bare file name and the map j -> where(filter)[j] "
+          "(root_of(...) for hierarchy children), and for a basin the source already had the composed map old_map[where(filter)].",
+  "note": "Trusted: N-FANCY/N-WHERE/N-MASK, N-EMPTY, opaque event payloads, map_indices_child2root contract (C04), the writer stubs of "
+          "C02, hashobj as an injective key, json.dumps/loads. The composition argument (exports of exports: out.map == src.map o "
+          "selection => out[f][j] == origin[f][...]) is by induction over exports (stated); Basin.load_dataset, BasinProxy, "
+          "InternalH5DatasetBasin and basins_retrieve's relative-path lookup are exercised only by the end-to-end replay harness "
+          "(bounded, used when a function leaves the accepted subset). Precedence of stored features over basin features is not under contract.",
+  "technique": "contract-based deductive verification: AST-generated VCs with loop invariants over an axiomatised numpy/HDF5 model, discharged by z3"}
 NOT_APPLICABLE = {}
